@@ -29,7 +29,7 @@ def ItemOk (d : Decl) : Item → Prop
   | .optEq n _ _ => isValueOptName d n = true
   | .togLong n => isTogName d n = true
   | .togNeg n => isTogName d n = true
-  | .togShort _ => True
+  | .togShort ls => ls ≠ [] ∧ ls.all (isTogLetter d) = true
 
 structure Tracks (d : Decl) (items : List Item) (s : Dyn) (pos : List Str) : Prop where
   opt : ∀ o ∈ d.opts, s.val o.name = (cliValues o.name items).head? ∧ (cliValues o.name items).length ≤ 1 ∧
@@ -587,15 +587,23 @@ theorem explainTok_itemOk {d : Decl} {tok : Str} {next : Option Str} {it : Item}
             simp only [Bool.and_eq_true] at ht
             exact ht.2
         · simp at h
-  · unfold explainShort at h
+  · rename_i ls v hsh
+    obtain ⟨_, _, c0, r0, hls, _, _⟩ := shapeOf_short hsh
+    unfold explainShort at h
     split at h
     · split at h
       · rename_i hv; exact explainValue_itemOk (valueOptOfLetter_isValueOptName hv) h
       · split at h
-        · simp only [Option.some.injEq, Prod.mk.injEq] at h; rw [← h.1]; trivial
+        · rename_i hcond
+          simp only [Option.some.injEq, Prod.mk.injEq] at h; rw [← h.1]
+          simp only [Bool.and_eq_true] at hcond
+          exact ⟨by simp, by simp [hcond.2]⟩
         · simp at h
     · split at h
-      · simp only [Option.some.injEq, Prod.mk.injEq] at h; rw [← h.1]; trivial
+      · rename_i hcond
+        simp only [Option.some.injEq, Prod.mk.injEq] at h; rw [← h.1]
+        simp only [Bool.and_eq_true] at hcond
+        exact ⟨by rw [hls]; simp, hcond.2⟩
       · simp at h
 
 theorem explainGo_itemOk {d : Decl} (toks : List Str) (onlyPos : Bool) (items : List Item)
